@@ -67,9 +67,25 @@ type HarnessResult struct {
 	CrossChecked int
 	CrossDisagree []string
 	FinalQueries []string // scripts for cross-check (thorough)
+	Witnesses    []*Witness
+}
+
+type Witness struct {
+	Harness  string
+	Model    map[string]string
+	UFs      map[string][]ufEntry
+	Observed []string
+	File     string
+	Result   string
+}
+
+type obsRec struct {
+	label string
+	v     IfaceV
 }
 
 type shared struct {
+	witnessLimit int
 	mu       sync.Mutex
 	queue    [][]int
 	inflight int
@@ -189,6 +205,7 @@ func (w *Worker) runPath(h *ssa.Function, prefix []int, sh *shared) {
 	w.depth = 0
 	w.cur = nil
 	w.clockLast = nil
+	w.observes = w.observes[:0]
 	w.smtReads = nil
 	w.gor = nil
 	var newq [][]int
@@ -225,6 +242,9 @@ func (w *Worker) runPath(h *ssa.Function, prefix []int, sh *shared) {
 		}()
 		w.runFn(nil, h, nil, nil)
 	}()
+	if status == "done" {
+		w.maybeWitness(h, sh)
+	}
 	w.killGoroutines()
 	w.solver.Pop()
 	w.rollback(mark)
@@ -530,6 +550,7 @@ func (w *Worker) callMerged(caller *frame, fn *ssa.Function, args []Value, env [
 	savedCur, savedDepth := w.cur, w.depth
 	var outs []outcome
 	queue := [][]int{{}}
+	baseInputs := len(w.inputs)
 	for len(queue) > 0 {
 		pre := queue[0]
 		queue = queue[1:]
@@ -583,6 +604,10 @@ func (w *Worker) callMerged(caller *frame, fn *ssa.Function, args []Value, env [
 		w.rollback(mark)
 		w.truncPC(pcMark)
 		w.solver.Pop()
+		if len(w.inputs) != baseInputs {
+			w.dc = saved
+			w.unsupported("zzverif inputs are drawn inside the merged function %s (draw them outside, or do not merge it)", fn)
+		}
 		queue = append(queue, newq...)
 		if !aborted {
 			outs = append(outs, o)
@@ -723,7 +748,10 @@ func (w *Worker) mergeOutcomes(outs []outcome) (outcome, bool) {
 func RunHarness(prog *Program, h *ssa.Function, cfg *HarnessCfg, workers []*Worker) *HarnessResult {
 	t0 := time.Now()
 	res := &HarnessResult{Name: h.Name(), Reached: map[string]bool{}, Funcs: map[string]int64{}, Intrinsics: map[string]int{}, Stubs: map[string]int{}, Asserts: map[string]int{}}
-	sh := &shared{res: res, violated: map[string]bool{}, knownHit: map[string]bool{}}
+	sh := &shared{res: res, violated: map[string]bool{}, knownHit: map[string]bool{}, witnessLimit: 3}
+	if cfg.Tier == "thorough" {
+		sh.witnessLimit = 12
+	}
 	sh.cond = sync.NewCond(&sh.mu)
 	sh.queue = [][]int{{}}
 	type snap struct {
@@ -841,4 +869,81 @@ func RunHarness(prog *Program, h *ssa.Function, cfg *HarnessCfg, workers []*Work
 	}
 	res.Wall = time.Since(t0)
 	return res
+}
+
+// maybeWitness: take a model of the completed path and the values the engine
+// predicts for the Observe expressions; it is later run natively (translator
+// validation: the native run must pass every assertion and observe the same values).
+func (w *Worker) maybeWitness(h *ssa.Function, sh *shared) {
+	sh.mu.Lock()
+	want := len(sh.res.Witnesses) < sh.witnessLimit
+	if want {
+		sh.res.Witnesses = append(sh.res.Witnesses, nil) // reserve
+	}
+	idx := len(sh.res.Witnesses) - 1
+	sh.mu.Unlock()
+	if !want {
+		return
+	}
+	var wit *Witness
+	if w.solver.Check() == Sat {
+		v := w.extractViolation("witness", "witness", "")
+		wit = &Witness{Harness: h.Name(), Model: v.Model, UFs: v.UFs}
+		for _, o := range w.observes {
+			wit.Observed = append(wit.Observed, o.label+"="+w.evalObserved(o.v))
+		}
+	}
+	sh.mu.Lock()
+	sh.res.Witnesses[idx] = wit
+	sh.mu.Unlock()
+}
+
+func (w *Worker) evalObserved(iv IfaceV) string {
+	if iv.T == nil {
+		return "<nil>"
+	}
+	switch x := iv.V.(type) {
+	case *Term:
+		mv := w.solver.GetValues([]*Term{x})[0]
+		if x.sort.K == SBool {
+			return fmt.Sprintf("%v", mv.B)
+		}
+		if _, signed, ok := intInfo(iv.T); ok && signed {
+			return fmt.Sprintf("%d", sext(mv.U, x.sort.W))
+		}
+		return fmt.Sprintf("%d", mv.U)
+	case StringV:
+		if x.Opaque != 0 {
+			return "?"
+		}
+		vals := w.solver.GetValues(x.B)
+		b := make([]byte, len(vals))
+		for i, v := range vals {
+			b[i] = byte(v.U)
+		}
+		return fmt.Sprintf("%x", b)
+	case SliceV:
+		if x.IsNil() {
+			return ""
+		}
+		ln := w.solver.GetValues([]*Term{x.Len})[0].U
+		if ln > 4096 {
+			return "?"
+		}
+		ts := make([]*Term, ln)
+		for i := range ts {
+			t, ok := w.sliceElem(x, w.k64(i)).(*Term)
+			if !ok {
+				return "?"
+			}
+			ts[i] = t
+		}
+		vals := w.solver.GetValues(ts)
+		b := make([]byte, len(vals))
+		for i, v := range vals {
+			b[i] = byte(v.U)
+		}
+		return fmt.Sprintf("%x", b)
+	}
+	return "?"
 }
